@@ -7,6 +7,8 @@ import numbers
 import pickle
 import weakref
 
+import numpy as np
+
 from hypothesis import strategies as st
 
 import xgi
@@ -23,6 +25,7 @@ NODE_KINDS = {
     "tiny": [0, 1, 2],
 }
 EID_ALPH = [0, 1, 2, 3, 5, 7, "x", "y"]
+ZERO = {"int": 0, "float": 0.0, "npint": np.int64(0)}  # the falsy explicit IDs
 ATTR_NAMES = ["color", "w", "weight", "tag", "label", "name"]
 
 kinds = st.sampled_from(sorted(NODE_KINDS))
@@ -95,7 +98,8 @@ def op_lists(op, max_ops):
     return st.one_of(st.lists(op, max_size=lo), st.lists(op, min_size=lo, max_size=max_ops))
 
 
-eid_literal = st.sampled_from(EID_ALPH)
+# 0 is drawn three times as often as the other literals: a falsy ID is the classic way to lose an explicit ID (`if idx:`)
+eid_literal = st.sampled_from([0, 0] + EID_ALPH)
 # an edge-ID reference: a literal, ['#', k] = k-th existing ID, or ['+', k] = (next automatic ID) + k, i.e. a new
 # explicit integer ID at or just above the counter - the IDs an automatic ID is most likely to collide with later
 # ['-', k] = k-th edge ID that existed earlier in this history and is gone now (IDs freed by removals and merges)
